@@ -11,7 +11,7 @@ refused unless all that follows is `return <its last name>`) and F-C06-7 (tests 
 holds without any side condition on the program: `C06_sound`, `C06_rename_sound`.  The `example`s at the end replay the
 three old witnesses against the *pre-repair* tables (`branchCopies`, `fallThroughChecked`, `testsBoolean` off).
 -/
-import MxlVerif.Lemmas.C06Tables
+import MxlVerif.Lemmas.C06Rename
 namespace Mxl.C06
 
 open Generated in
@@ -91,6 +91,30 @@ theorem C06_rename_sound (P : Prog) (d : FnDef) (f1 f2 : Nat) (ms : List SExpr) 
     simp at hn
   | cons m ms =>
     exact (sound_all C06_table_sound f1).fnSubst d m ms e htr f2 vs v hpy ρ hargs
+
+/-- **Renaming onto any distinct model names — in particular onto the function's own parameter names in ANOTHER ORDER.**
+Let `names` be any list of distinct symbol names as long as the parameter list (every permutation of `d.params` is
+one; so is any overlap with them, e.g. a rotation or a shift).  If `fn_to_sympy(d, model_args = names)` yields `e`,
+then at the valuation `names[i] ↦ vs[i]` the expression `e` has the value of Python's `d(vs)`: the i-th parameter is
+read at the i-th model name, never at a name that merely coincides with another parameter (the substitution is
+simultaneous: `C06_table_sound.substSim`; with the sequential `subs` of the unrepaired code this is false,
+`C06_substSeq_unsound`). -/
+theorem C06_rename_names_sound (P : Prog) (d : FnDef) (f1 f2 : Nat) (names : List String) (e : SExpr) (vs : List Val)
+    (v : Val) (hnd : names.Nodup) (hlen : names.length = vs.length)
+    (htr : fnToSympy Generated.tables P f1 d (some (names.map SExpr.sym)) = .ok e)
+    (hpy : callFn P f2 d vs = some v) :
+    evalS (envOf (names.zip vs)) e = some v :=
+  C06_rename_sound P d f1 f2 (names.map SExpr.sym) e vs v _ htr
+    (all2_syms_of_nodup names vs _ hnd hlen (fun _ _ h => h)) hpy
+
+/-- … stated for permutations: `σ` any permutation of the parameter list (as a list: `σ.Perm d.params`), the function
+has distinct parameters (Python refuses a `def` that repeats one). -/
+theorem C06_rename_perm_sound (P : Prog) (d : FnDef) (f1 f2 : Nat) (σ : List String) (e : SExpr) (vs : List Val)
+    (v : Val) (hperm : σ.Perm d.params) (hnd : d.params.Nodup) (hlen : d.params.length = vs.length)
+    (htr : fnToSympy Generated.tables P f1 d (some (σ.map SExpr.sym)) = .ok e)
+    (hpy : callFn P f2 d vs = some v) :
+    evalS (envOf (σ.zip vs)) e = some v :=
+  C06_rename_names_sound P d f1 f2 σ e vs v (hperm.nodup_iff.mpr hnd) (by rw [hperm.length_eq]; exact hlen) htr hpy
 
 /-- **Nested calls.** The translation of `g(args)` is the translation of `g`'s body — started with *empty* import
 tables: the callee never sees the caller's function-local imports — with the translated arguments substituted
@@ -455,5 +479,14 @@ example :
     branchOk [.ret (.name "v")] [.assign "s" (.num 1), .assign "v" (.num 2)] = true ∧
     branchOk [.ret (.name "v")] [.assign "v" (.num 2), .assign "s" (.num 1)] = false ∧
     branchOk [.ret (.name "v")] [.multiAssign ["v", "s"] (.num 2)] = false := by decide
+
+-- `C06_rename_perm_sound` is not vacuous: `def sub(a, b): return a - b` with `model_args = [b, a]` is translated (to
+-- `b - a`), Python's `sub(5, 3)` is 2, and at `b ↦ 5, a ↦ 3` the translation evaluates to 2
+example :
+    let d : FnDef := { name := "sub", params := ["a", "b"], body := [.ret (.bin .sub (.name "a") (.name "b"))], globals := [] }
+    fnToSympy Generated.tables [d] 5 d (some (["b", "a"].map SExpr.sym)) = .ok (.bin .sub (.sym "b") (.sym "a")) ∧
+    callFn [d] 5 d [.num 5, .num 3] = some (.num 2) ∧
+    evalS (envOf (["b", "a"].zip [.num 5, .num 3])) (.bin .sub (.sym "b") (.sym "a")) = some (.num 2) := by
+  decide +kernel
 
 end Mxl.C06
